@@ -144,4 +144,4 @@ func ZZ_C03_skeleton_log() {
 }
 func ZZ_C03_skeleton_linear()   { zzC03Skeleton(1, 0.01, false) }
 func ZZ_C03_skeleton_cubic()    { zzC03Skeleton(2, 0.01, false) }
-func ZZ_C03_skeleton_monotone_linear_T() { zzC03Skeleton(1, 0.01, true) }
+func ZZ_C03_skeleton_monotone_linear_X() { zzC03Skeleton(1, 0.01, true) }
